@@ -52,7 +52,8 @@ static std::string arr2(const std::vector<std::vector<long long>> &v) {
 static void observe(Ev &e) {
     const int LIM = 4 * NC + 4;
     std::vector<long long> nx(NC), pv(NC), linked(NC), size(NH), rsize(NH), empty(NH), correct(NH), cyc(NH, 0);
-    std::vector<std::vector<long long>> fwd(NH), bwd(NH), inm(NH);
+    std::vector<std::vector<long long>> fwd(NH), bwd(NH), inm(NH), efwd(NH), ebwd(NH), esafe(NH);
+    std::vector<long long> first(NH, -1), last(NH, -1), chk(NH, -1), chkr(NH, -1);   // entry accessors, bounded cycle checks
     for (int c = 0; c < NC; ++c) {
         if (!alive[c]) { nx[c] = pv[c] = -2; linked[c] = -1; continue; }
         if (flavor == "c") { nx[c] = cidx(cptr(c)->next); pv[c] = cidx(cptr(c)->prev); linked[c] = dlist_is_linked(cptr(c)) ? 1 : 0; }
@@ -74,6 +75,13 @@ static void observe(Ev &e) {
             if (!cyc[h]) {
                 size[h] = dlist_size(cptr(h)); rsize[h] = dlist_size_reversed(cptr(h)); empty[h] = dlist_empty(cptr(h)) ? 1 : 0;
                 correct[h] = dlist_is_correct(cptr(h)) ? 1 : 0;
+                // the entry-based macros and helpers users iterate with: for_each_entry (forward, reverse, safe), first/last entry, dlist_check
+                { CItem *pos, *nx2; int st2 = 0;
+                  dlist_for_each_entry(pos, cptr(h), lnk) { efwd[h].push_back(pos->key); if (++st2 > LIM) break; } st2 = 0;
+                  dlist_for_each_entry_reverse(pos, cptr(h), lnk) { ebwd[h].push_back(pos->key); if (++st2 > LIM) break; } st2 = 0;
+                  dlist_for_each_entry_safe(pos, nx2, cptr(h), lnk) { esafe[h].push_back(pos->key); if (++st2 > LIM) break; }
+                  if (!dlist_empty(cptr(h))) { first[h] = dlist_first_entry(cptr(h), CItem, lnk)->key; last[h] = dlist_last_entry(cptr(h), CItem, lnk)->key; }
+                  chk[h] = dlist_check(cptr(h), LIM); chkr[h] = dlist_check_reversed(cptr(h), LIM); }
                 for (int c = NH; c < NC; ++c) if (alive[c]) inm[h].push_back(dlist_in(cptr(c), cptr(h)) ? c : -1);
             } else size[h] = rsize[h] = empty[h] = correct[h] = -3;
         } else {
@@ -81,12 +89,20 @@ static void observe(Ev &e) {
             for (auto it = L.begin(); it != L.end(); ++it) { fwd[h].push_back(xidx_item(&*it)); if (++steps > LIM) { cyc[h] = 1; break; } }
             steps = 0;
             for (auto it = L.rbegin(); it != L.rend(); ++it) { bwd[h].push_back(xidx_item(&*it)); if (++steps > LIM) { cyc[h] = 1; break; } }
-            if (!cyc[h]) { size[h] = L.size(); rsize[h] = L.size(); empty[h] = L.empty() ? 1 : 0; correct[h] = L.is_correct() ? 1 : 0; }
+            if (!cyc[h]) { size[h] = L.size(); rsize[h] = L.size(); empty[h] = L.empty() ? 1 : 0; correct[h] = L.is_correct() ? 1 : 0;
+                // the remaining public accessors: decrementing iterators (from end() / rend()), post-increment, front/back/first, circular sizes
+                int st2 = 0;
+                for (auto it = L.end(); it != L.begin();) { --it; ebwd[h].push_back(xidx_item(&*it)); if (++st2 > LIM) break; } st2 = 0;
+                for (auto it = L.rend(); it != L.rbegin();) { --it; efwd[h].push_back(xidx_item(&*it)); if (++st2 > LIM) break; } st2 = 0;
+                for (auto it = L.begin(); it != L.end();) { auto cur = it++; esafe[h].push_back(xidx_item(&*cur)); if (++st2 > LIM) break; }
+                if (!L.empty()) { first[h] = xidx_item(&L.front()); last[h] = xidx_item(&L.back()); if (&L.first() != &L.front()) first[h] = -5; }
+                chk[h] = (long)xnode(h)->circular_size() - 1; chkr[h] = (long)xnode(h)->reverse_circular_size() - 1; }
             else size[h] = rsize[h] = empty[h] = correct[h] = -3;
         }
     }
     e.ints("nx", nx).ints("pv", pv).ints("linked", linked).raw("fwd", arr2(fwd)).raw("bwd", arr2(bwd))
-     .ints("size", size).ints("rsize", rsize).ints("empty", empty).ints("correct", correct).raw("inm", arr2(inm));
+     .ints("size", size).ints("rsize", rsize).ints("empty", empty).ints("correct", correct).raw("inm", arr2(inm))
+     .raw("efwd", arr2(efwd)).raw("ebwd", arr2(ebwd)).raw("esafe", arr2(esafe)).ints("first", first).ints("last", last).ints("chk", chk).ints("chkr", chkr);
 }
 
 static int any_live_head() { for (int h = 0; h < NH; ++h) if (alive[h]) return h; return -1; }
